@@ -51,11 +51,15 @@ func runC06(c *ShardCtx) {
 	reuseSeen := 0
 	gen := core.Gen{}
 	var leaders map[string]bool // indirect cycles: the leader grows the seed (see C08)
+	var runAll func(g *peg.Grammar, script map[int]*rtapi.Block)
 	run := func(g *peg.Grammar, script map[int]*rtapi.Block) {
 		idx++
 		if !c.Mine(idx) {
 			return
 		}
+		runAll(g, script)
+	}
+	runAll = func(g *peg.Grammar, script map[int]*rtapi.Block) {
 		text := peg.Print(g, nil)
 		c.Res.Grammars++
 		b := buildOrCount(c, text, gen)
@@ -236,6 +240,41 @@ func runC06(c *ShardCtx) {
 		inputs = savedInputs
 	}
 	gen, leaders = core.Gen{}, nil
+	// cross family (cross.go): every construct the property admits (no #{}, no throw / recover) next
+	// to every other, with and without -optimize-basic-latin and left recursion; predicates true /
+	// false, and every action returning an error
+	{
+		saved := inputs
+		inputs = crossInputsSmall
+		ok := runCross(c, &idx, &crossSpec{maxSize: 3,
+			keep: func(body *peg.Expr) bool {
+				bad := false
+				body.Walk(func(e *peg.Expr) { bad = bad || e.K == peg.KState || e.K == peg.KThrow || e.K == peg.KRecover })
+				return !bad
+			},
+			each: func(g *peg.Grammar, lr bool) {
+				scripts := crossPredScripts(g)
+				es := map[int]*rtapi.Block{}
+				for _, blk := range g.Blocks() {
+					es[blk.ID] = &rtapi.Block{}
+					if blk.K == peg.KAction {
+						es[blk.ID].Err = "e" + itoa(blk.ID)
+					}
+				}
+				scripts = append(scripts, es)
+				for _, bl := range []bool{false, true} {
+					gen = core.Gen{LeftRec: lr, BasicLatin: bl}
+					for _, sc := range scripts {
+						runAll(g, sc)
+					}
+				}
+			}})
+		inputs = saved
+		gen = core.Gen{}
+		if !ok {
+			return
+		}
+	}
 	// F1
 	en := peg.NewEnumerator(peg.Alphabet{Leaves: baseLeaves(), Unary: allUnary, Seq: true, Choice: true, MaxArity: 3})
 	for _, body := range en.UpTo(n) {
